@@ -85,6 +85,13 @@ func (t *Teamserver) ListenerStart(ListenerType int, info any) error {
 			endpoint  = new(Endpoint)
 		)
 
+		// an endpoint routes to one listener only
+		for _, e := range t.Endpoints {
+			if e.Endpoint == ExtConfig.Config.Endpoint {
+				return errors.New("endpoint already in use")
+			}
+		}
+
 		// ExtConfig.RoutineFunc = Functions
 		ExtConfig.Teamserver = t
 
@@ -352,6 +359,13 @@ func (t *Teamserver) ListenerServiceExc2Add(Name, ExEndpoint string, client *ser
 
 	if t.ListenerExist(Name) {
 		return errors.New("listener with that name already exist")
+	}
+
+	// an endpoint routes to one listener only
+	for _, e := range t.Endpoints {
+		if e.Endpoint == ExEndpoint {
+			return errors.New("endpoint already in use")
+		}
 	}
 
 	// create a new external C2 instance
